@@ -74,7 +74,10 @@ def gen_world(rng, profile=None):
         # case as it was before this was added.
         rng2 = random.Random(f'throttle|{st.id}|{st.geoid}|{sorted(chargers.items())}')
         for c in sorted(chargers):
-            if rng2.random() < 0.35:
+            if profile.get('throttle_first') is not None:
+                if k == 0:
+                    st = st.scale_charger_rate(c, profile['throttle_first']).unwrap()
+            elif rng2.random() < 0.35:
                 r = st.scale_charger_rate(c, rng2.choice([0.1, 0.5, 0.9]))
                 st = r.unwrap()
         stations.append(st)
